@@ -29,6 +29,8 @@ func genScenario(seed int64, profile string, allow map[string]bool) *Scenario {
 		return genKF(seed, allow)
 	case "fault":
 		return genFault(seed, allow)
+	case "bots":
+		return genBots(seed, allow)
 	}
 	r := rand.New(rand.NewSource(seed*7919 + 17))
 	sc := &Scenario{Seed: seed, Mode: []string{"ct", "ct", "cash", "mtt"}[r.Intn(4)], Rule: "default", MinPlayers: 2,
@@ -282,6 +284,7 @@ func cmdTable(args []string) int {
 	profile := fs.String("profile", "general", "scenario family")
 	via := fs.String("via", "", "manager: route every call through a pokertable.Manager")
 	actors := fs.Bool("actors", false, "attach observer actors to every table update")
+	bots := fs.Bool("bots", false, "every seated player is a real botRunner")
 	allowS := fs.String("allow", "", "comma list of known-finding triggers this pool may contain")
 	out := fs.String("out", "", "output ndjson")
 	scenFile := fs.String("scenario", "", "run the scenarios (JSON list) in this file instead of generating")
@@ -329,6 +332,9 @@ func cmdTable(args []string) int {
 		}
 		if *actors {
 			sc.Actors = true
+		}
+		if *bots {
+			sc.Bots = true
 		}
 		rec.StartTrace(int(sc.Seed))
 		b, _ := json.Marshal(sc)
